@@ -15,9 +15,9 @@ def main():
         s = vf.tlc("LayerOverlay", sc, workers=4, collect=False, timeout=300)
         if s.violated != inv:
             raise vf.NotAVerdict("sanity invariant %s not violated: vacuous model" % inv)
-    fams = ["LayerOverlay-gen-1.cfg", "LayerOverlay-gen-21.cfg", "LayerOverlay-gen-12.cfg"]
+    fams = ["LayerOverlay-gen-1.cfg", "LayerOverlay-gen-21.cfg", "LayerOverlay-gen-12.cfg", "LayerOverlay-gen-111.cfg"]
     if ck.thorough():
-        fams += ["LayerOverlay-gen-22.cfg", "LayerOverlay-gen-111.cfg"]
+        fams += ["LayerOverlay-gen-22.cfg", "LayerOverlay-gen-211.cfg"]
     overlay.run_family(ck, fams, allvariants=ck.thorough())
     ck.cov["exhaustive"] = True
     ck.cov["rule"] = ("every image reachable in LayerOverlay.tla under the cfg constants: 1..3 layers of up to 1-3 entries (regular files with two contents/modes, directories, symlinks, whiteouts, "
